@@ -327,6 +327,19 @@ def vet(ctx, binp, specs):
     return res
 
 
+def vet_plain(ctx, binp, specs, name):
+    """like vet(), for auxiliary jobs: ids of the specs that end by themselves in a process of their own (any class), cheaply"""
+    sp = os.path.join(ctx.build, name + '_specs.ndjson')
+    vlib.write_ndjson(sp, specs)
+    vp = os.path.join(ctx.build, name + '.ndjson')
+    ctx.run([binp, 'vet', sp, vp, str(min(16, vlib.NCPU)), '8000000', '30'], check=True, timeout=1500)
+    ok = {}
+    for r in vlib.read_ndjson(vp):
+        if r['outcome'] == 'ok' and r.get('res') and r['res']['ms'] <= VET_MS and r['res']['n'] <= VET_BYTES:
+            ok[specs[r['i']]['id']] = r['res']
+    return ok
+
+
 def run_par(jobs, width):
     """jobs: list of callables; run at most `width` at a time"""
     out = [None] * len(jobs)
@@ -511,6 +524,76 @@ def real_arms(ctx):
                 mism.append(('seq', byid[e['id']], 'run at position %d of a process that runs every job kind of its files twice (no race detector) differs from the lone result' % e['pos'],
                              dict(kind='seq', spec=byid[e['id']], pos=e['pos'])))
     ctx.cov['twice_in_one_process'] = dict(jobs=ntwice, processes=P2)
+    # ---- 1c. A DECODE THAT FAILS LEAVES NOTHING BEHIND: per format family, a ladder of truncations of its files (cut inside the
+    #          first bytes, where headers, tables and dictionaries are read, and at fractions of the size) each followed at once by a
+    #          whole file of the same format in the same process; the whole file must give its lone result.  (Jobs.tla: a job
+    #          completes with the result of its lone run whatever ran before it; the failing job is the interesting predecessor
+    #          because it leaves its decoder in the middle of something.)
+    famv = collections.defaultdict(list)
+    for s_ in specs:
+        if s_['level'] == 'decode' and s_['trunc'] < 0 and not s_['opts']:      # whatever its class: a lone result is a result
+            famv[(corpusarm.family(s_['file']), s_['format'])].append(s_)
+    LADDER = [3, 6, 9, 12, 16, 20, 24, 32, 40, 48, 64, 80, 96, 128, 160, 192, 256, 320, 384, 512, 768, 1024, 1536, 2048, 4096]
+    fspecs, pairs = [], []
+    allfiles = collections.defaultdict(list)
+    for f in corpusarm.sample_files(MAXSIZE):
+        allfiles[corpusarm.family(f)].append(f)
+    for key in sorted(famv):
+        vs = famv[key]
+        # sources of the failing jobs: every sample of the family, those that are no victim themselves first (too large or too slow
+        # as a whole, their first bytes are neither), then the others in a seeded order
+        vfiles = {v['file'] for v in vs}
+        others = sorted(f for f in allfiles[key[0]] if f not in vfiles)
+        mine = sorted(vfiles)
+        ctx.rng.shuffle(others)
+        ctx.rng.shuffle(mine)
+        srcs = (others + mine) if th else (others[:2] + mine)[:4]
+        fl_ = []
+        for src in srcs:
+            size = os.path.getsize(src)
+            cuts = sorted({c for c in LADDER if c < size} | {max(1, size * k // 8) for k in range(1, 8)} | {max(1, size - 1)})
+            if not th:
+                # every second rung, offset by the seed, so that two seeds cover the ladder
+                cuts = [c for i, c in enumerate(cuts) if (i + ctx.seed) % 2 == 0]
+            for c in cuts:
+                f_ = dict(id='f%d' % len(fspecs), file=src, format=key[1], level='decode', opts={}, trunc=c, expr='')
+                fspecs.append(f_)
+                fl_.append(f_)
+        for v in (vs if th else vs[:6]):
+            for f_ in fl_:
+                pairs.append((f_, v))
+    # the failing jobs are vetted like every other job (a crash or a stall of one of them is C06's business, not this arm's)
+    fvet = vet_plain(ctx, binp, fspecs, 'fail_vet')
+    pairs = [(f_, v) for f_, v in pairs if f_['id'] in fvet]
+    ctx.rng.shuffle(pairs)
+    P3 = 8
+    jobs3 = []
+    for p in range(P3):
+        seq = []
+        for f_, v in pairs[p::P3]:
+            seq += [f_, v]
+        cp = os.path.join(ctx.build, 'after_%d.ndjson' % p)
+        vlib.write_ndjson(cp, seq)
+        op = os.path.join(ctx.build, 'after_%d_out.ndjson' % p)
+        jobs3.append(lambda cp=cp, op=op, seq=seq: (ctx.run([binp, 'solo', cp, op, '0', '1'], timeout=1500), op, seq))
+    nafter = 0
+    for item in run_par(jobs3, 8):
+        if item is None:
+            ctx.inconc('after-a-failure pass: a process timed out')
+            continue
+        r, op, seq = item
+        if r is None or r.returncode != 0:
+            ctx.inconc('after-a-failure pass did not finish (rc=%s): %s' % (getattr(r, 'returncode', None), (getattr(r, 'stderr', '') or '')[-300:]))
+            continue
+        for e in vlib.read_ndjson(op):
+            if e['id'].startswith('f'):
+                continue
+            nafter += 1
+            if e['hash'] != lone[e['id']]['hash']:
+                pred = seq[e['pos'] - 1]
+                mism.append(('afterfail', byid[e['id']], 'decoded right after the first %d bytes of %s (same format, same process) it differs from its lone result'
+                             % (pred['trunc'], os.path.basename(pred['file'])), dict(kind='afterfail', spec=byid[e['id']], pred=pred, pos=e['pos'])))
+    ctx.cov['after_a_failing_decode'] = dict(pairs=nafter, failing_jobs=len(fvet), families=len(famv), processes=P3)
     vlib.log('sequential arm done at %.0fs' % (time.time() - ctx.t0))
     ctx.cov['sequential'] = dict(jobs=nseqjobs, processes=len(jobs), one_job_processes=nlone, several_inputs_on_one_interp=nmulti)
 
